@@ -271,6 +271,66 @@ def bitsCmd (toks : List String) : String :=
     if Stim.Bits.matMul ((rs.take k).map bv) ((rs.drop k).map bv) k == Stim.Bits.identity k then "1" else "0"
   | _ => "bad-request"
 
+/-- compare a flattened model reported by the implementation (parsed from the wire, coordinates as binary64 bits) with the
+    naive execution of the original model -/
+def flatMatches (mine : List FlatOp) (theirs : Dem) : Bool :=
+  mine.length == theirs.length && (mine.zip theirs).all fun (a, b) =>
+    match a, b with
+    | .error p tag ts, .error p' tag' ts' => p == p' && tag == tag' && ts == ts'
+    | .detector cs tag id, .detector args tag' t => cs == args.map ratOfBits && tag == tag' && t == .det id
+    | .logical tag id, .logical tag' t => tag == tag' && t == .obs id
+    | _, _ => false
+
+/-- `dem check <model> . <flattened> . <count_detectors> <count_errors> <count_observables> <total_shift> <k coordshift bits...>` -/
+def demCheck (toks : List String) : String :=
+  match parseDem toks with
+  | none => "bad-request"
+  | some (m, rest) =>
+    match parseDem rest with
+    | none => "bad-request"
+    | some (fl, rest2) =>
+      match rest2.mapM String.toNat? with
+      | none => "bad-request"
+      | some nums =>
+        match nums with
+        | cd :: ce :: co :: ts :: ncs :: cs =>
+          if !flatMatches m.flat fl then "flattened-differs"
+          else if m.countDetectors != cd then s!"count_detectors {m.countDetectors}"
+          else if m.countErrors != ce then s!"count_errors {m.countErrors}"
+          else if m.countObservables != co then s!"count_observables {m.countObservables}"
+          else if m.totalDetectorShift != ts then s!"total_detector_shift {m.totalDetectorShift}"
+          else if cs.length != ncs then "bad-request"
+          else
+            -- trailing zero coordinates are not significant
+            let a := m.finalCoordShift
+            let b := cs.map ratOfBits
+            let n := max a.length b.length
+            if (List.range n).all (fun i => a.getD i 0 == b.getD i 0) then "ok" else "final_coord_shift"
+        | _ => "bad-request"
+
+/-- `dem coords <model> . <id> (none | err | <n> <bits...>)` -/
+def demCoords (toks : List String) : String :=
+  match parseDem toks with
+  | some (m, idS :: rest) =>
+    match idS.toNat? with
+    | none => "bad-request"
+    | some id =>
+      let expected : Option (List Rat) :=
+        match m.detectorCoords id with
+        | some c => some c
+        | none => if id < m.countDetectors then some [] else none
+      match rest, expected with
+      | ["err"], none => "ok"
+      | ["err"], some _ => "should-have-coords"
+      | _ :: bits, some c =>
+        (match bits.mapM String.toNat? with
+         | some bs => if bs.map ratOfBits == c then "ok" else "coords-differ"
+         | none => "bad-request")
+      | [_], none => "ok"   -- an undeclared index past the counted detectors may also be answered with empty coordinates
+      | _, none => "should-reject"
+      | _, _ => "bad-request"
+  | _ => "bad-request"
+
 def answer (toks : List String) : String :=
   match toks with
   | "tsim" :: "check" :: rest => tsimCheck rest
@@ -279,6 +339,8 @@ def answer (toks : List String) : String :=
   | "tab" :: rest => tabCmd rest
   | "fmt" :: rest => fmtCmd rest
   | "bits" :: rest => bitsCmd rest
+  | "dem" :: "check" :: rest => demCheck rest
+  | "dem" :: "coords" :: rest => demCoords rest
   | "gate" :: "act" :: rest => gateAct rest
   | "gate" :: "actu" :: rest => gateActU rest
   | "gate" :: "mismatch" :: [g] =>
